@@ -84,7 +84,8 @@ class World:
                        "deepcopy_inside_context", "convert_inside_context", "eso_at_inside_context", "context_operator_not_looked_at", "propagation_inside_context", "time_dependent_tensor_in_pool", "evolution_at_inside_context",
                        "refused_construction_inside_context", "api_sweep_call",
                        "context_object_reentered_while_active", "context_object_entered_again_after_exit",
-                       "dipole_component_inside_context", "system_bath_interaction_shared_by_two_tensors"]
+                       "dipole_component_inside_context", "system_bath_interaction_shared_by_two_tensors",
+                       "evolution_reinitialised_inside_context"]
     required_faults = ["F1_simfault", "F2_refused_write", "F3_dimension_mismatch"]
     components = {
         "real": ["Manager basis stack / registration / flags", "eigenbasis_of.__enter__/__exit__", "BasisManaged",
@@ -124,9 +125,9 @@ class World:
         if not any(c in CONTEXT_CLASSES for c in classes):
             classes.append("SelfAdjoint")
         opkinds = ["enter", "enter", "exit", "exit", "create", "read", "read", "write", "poke", "protect", "unprotect",
-                   "apply", "copy", "secularize", "convert", "fault", "badwrite", "opapply", "opadd", "esoat", "libprop", "evat", "badcreate", "apisweep", "tdmcomp"]
+                   "apply", "copy", "secularize", "convert", "fault", "badwrite", "opapply", "opadd", "esoat", "libprop", "evat", "badcreate", "apisweep", "tdmcomp", "evreinit"]
         if rng.random() < 0.5:
-            drop = rng.sample(["poke", "protect", "apply", "copy", "secularize", "convert", "fault", "badwrite", "opapply", "opadd", "esoat", "libprop", "evat", "badcreate", "apisweep", "tdmcomp"],
+            drop = rng.sample(["poke", "protect", "apply", "copy", "secularize", "convert", "fault", "badwrite", "opapply", "opadd", "esoat", "libprop", "evat", "badcreate", "apisweep", "tdmcomp", "evreinit"],
                               rng.randint(1, 5))
             opkinds = [k for k in opkinds if k not in drop]
         faultfree = rng.random() < 0.35
@@ -1222,6 +1223,35 @@ class Runner:
             self.ctx.probe("evolution_at_inside_context")
         self.ctx.ev(i, "evat", n, m, ti, self.depth)
         self.ctx.cov("evat", self.depth)
+
+    def op_evreinit(self, i, op):
+        """An evolution container is given another initial condition (set_initial_condition is not a constructor: the
+        object may already be known to the active context)."""
+        n = self.pick(op["k"], lambda o: o.cls == "RDMEvolution" and o.protected_at is None)
+        if n is None:
+            return
+        o = self.pool[n]
+        r = self.pick(op["s"], lambda q: q.cls == "RDM" and q.dim == o.dim and q.protected_at is None)
+        if r is None or self.access_expected_refusal(o) or self.access_expected_refusal(self.pool[r]):
+            return
+        R = self.pool[r]
+        if op.get("i", 0) % 2 == 0:
+            self.touch_probe(o)
+            try:
+                numpy.array(o.real.data)        # the container has been looked at here before it is re-used
+            except Exception as e:
+                raise Violation("read-raises", "op %d: %s: %s" % (i, type(e).__name__, e))
+        try:
+            o.real.set_initial_condition(R.real)
+        except Exception as e:
+            raise Violation("set-initial-condition-raises", "op %d: depth %d: %s: %s" % (i, self.depth, type(e).__name__, e))
+        new = numpy.zeros_like(o.X0["data"])
+        new[0] = R.X0["data"]
+        o.X0 = {"data": new}
+        if self.depth >= 1:
+            self.ctx.probe("evolution_reinitialised_inside_context")
+        self.ctx.ev(i, "evreinit", n, r, self.depth)
+        self.ctx.cov("evreinit", self.depth)
 
     def op_tdmcomp(self, i, op):
         """TransitionDipoleMoment.get_component(n) hands out one Cartesian component as a new managed operator."""
